@@ -32,4 +32,9 @@ func facts() {
 	skeletonFact("skel_proxy_Handler", []string{"C01", "C18"}, "internal/proxy/oauthproxy.go", "OAuthProxy", "Handler")
 	skeletonFact("skel_proxy_Proxy", []string{"C01"}, "internal/proxy/oauthproxy.go", "OAuthProxy", "Proxy")
 	skeletonFact("skel_hostmux_Route", []string{"C13"}, "internal/pkg/hostmux/hostmux.go", "Router", "Route")
+
+	mapLiteral("proxySecurityHeaders", []string{"C18"}, "internal/proxy/middleware.go", "securityHeaders")
+	headerDeletes("modifyResponseDeletes", []string{"C18"}, "internal/proxy/reverse_proxy.go")
+	skeletonFact("skel_proxy_requireHTTPS", []string{"C18"}, "internal/proxy/middleware.go", "", "requireHTTPS")
+	skeletonFact("skel_proxy_NewUpstreamReverseProxy", []string{"C18", "C03", "C12"}, "internal/proxy/reverse_proxy.go", "", "NewUpstreamReverseProxy")
 }
